@@ -8,7 +8,7 @@ def jobs(tier):
     from checks import c15
     front = [(c15.unit_hex, (list(range(i, min(i + 16, 256))),)) for i in range(0, 256, 16)] + [(c15.unit_swtpm, ())]
     front += [(c15.unit_wrapper, (w, k)) for w in ("hex", "swtpm") for k in ("opaque", "bytes", "bytearray", "list", "iterator")]
-    return D.g_pump(m) + D.g_leaf(("strict",), deep=1) + D.g_arrays(("strict",)) + front
+    return D.g_pump(m) + D.g_leaf(("strict",), deep=1) + D.g_arrays(("strict",)) + D.g_structs(("strict",)) + D.g_frames(("strict",)) + front
 
 
 def keep(name, ob):
